@@ -1085,11 +1085,38 @@ def run_isolation(out, tier):
                 st['args']['p'] = [q for q in st['args']['p']
                                    if rnd.random() < 0.3] + \
                     [{'k': 'invalid', 'v': True}]
+    progs += interp_argument_programs()
     # disk-backed receivers (netCDF handles keep reader state of their own)
     nd = 150 if tier == 'quick' else 1500
     progs += gen_disk_programs(rnd, nd, [2, 3, 4], True,
                                ['T1', 'T2', 'T4', 'T5', 'T7'])
     run_programs(out, progs, {'iso'}, 'C05-heap', prop='-')
+
+
+def interp_argument_programs():
+    """The target levels of an interpolation are the coordinate VARIABLE of
+    another file (double precision) and reach beyond the source's range: the
+    argument is an object like any other - the call leaves it as it is (C05),
+    and a second interpolation to the same levels gives the values at those
+    levels (C17)."""
+    progs = []
+
+    def sl(a, b):
+        return {'k': 'slice', 'h': [a is not None, b is not None, False],
+                'v': [a or 0, b or 0, 0]}
+    for t, d, vals in (('T1', 'x', [10, 20, 30]), ('T5', 'time', [0, 6, 12, 18])):
+        for lo, hi in ((1, None), (None, -1), (1, -1) if len(vals) > 3
+                       else (1, None)):
+            for ex in (False, True):
+                progs.append({'templates': [t, t], 'steps': [
+                    {'act': 'slice', 'src': 1, 'others': [], 'args': {
+                        'sels': [{'d': d, 's': sl(lo, hi)}],
+                        'newdim': 'POINTS'}},
+                    {'act': 'interp', 'src': 3, 'others': [], 'args': {
+                        'd': d, 'ex': ex, 'nxs': vals, 'argof': 2}},
+                    {'act': 'interp', 'src': 1, 'others': [], 'args': {
+                        'd': d, 'ex': ex, 'nxs': vals, 'argof': 2}}]})
+    return progs
 
 
 MC_ACTS = {'C01': None, 'C02': {'slice'}, 'C03': {'apply'}, 'C04': {'stack'},
